@@ -8,6 +8,14 @@ for l in open('/verif/properties.jsonl'):
     if d['id'] == pid:
         break
 wt = f"/tmp/seed_{pid}"
+import glob, os
+used = []
+for mf in sorted(glob.glob(f'/verif/seeded/{pid}-m*/meta.json')):
+    try: used.append(json.load(open(mf))['breaks'])
+    except Exception: pass
+used_txt = ""
+if used:
+    used_txt = "\n\nThese ideas were already used by earlier rounds; produce DIFFERENT ones (different code sites or different parts of the property):\n" + "\n".join("- " + u for u in used)
 print(f"""You are helping to test a verification tool by writing realistic bugs. Work ONLY inside the git worktree {wt} (a checkout of the Python package SEDenmarkLab/molli, a cheminformatics toolbox; it also holds a copy of the compiled extension molli_xt*.so, which is untracked — leave it). Do not read or write anything under /verif or /repo. Run Python as: `cd {wt} && PYTHONPATH={wt} PYTHONWARNINGS=ignore MOLLI_HOME=/tmp/seedhome_{pid} /venv/bin/python ...`; the test suite is `cd {wt} && PYTHONPATH={wt} MOLLI_HOME=/tmp/seedhome_{pid} /venv/bin/python -m pytest -q -p no:cacheprovider --timeout=900` (81 tests pass, 4 known failures: test_conformer_to_lib, test_ensemble_lib, test_load_all, test_loads_all — some bundled data files are empty; openbabel/rdkit are not installed; no network). Always wrap anything that might hang in `timeout`.
 
 The property under test (anchored in: {', '.join(d['anchors']['files'])}):
@@ -15,4 +23,4 @@ The property under test (anchored in: {', '.join(d['anchors']['files'])}):
 It is quantified: {d['quantifier']['text']}
 
 Produce {n} different, independent code changes (mutants) to the package, each of which breaks this property while the package still imports and the same 81 tests still pass. Make them realistic slips a developer could make in a refactor or an 'optimisation', spread over different parts of the property, and make each need something specific to manifest (a particular interleaving, a crash or fault at a particular point, a multi-step sequence of operations, an unusual but legal input, a particular configuration, or two cooperating sites that each look fine alone) — not something ordinary use would expose at once.
-For each mutant k write, under {wt}/out/m<k>/: `patch.diff` (output of `git diff` for that mutant alone, relative to the clean worktree HEAD, applicable with `git apply`), `demo.py` (a small standalone program that exits 0 on the clean code and exits non-zero with a clear message on the mutated code; it takes the package from PYTHONPATH and must finish within 60 s), and `note.txt` (which part of the property it breaks, what it needs in order to manifest). Verify each yourself: clean tree -> demo passes, 81 tests pass; with the patch -> demo fails, 81 tests still pass. Reset the worktree to clean (`git checkout -- .`) between mutants and at the end (the out/ directory is untracked and stays). Final answer: one line per mutant.""")
+For each mutant k write, under {wt}/out/m<k>/: `patch.diff` (output of `git diff` for that mutant alone, relative to the clean worktree HEAD, applicable with `git apply`), `demo.py` (a small standalone program that exits 0 on the clean code and exits non-zero with a clear message on the mutated code; it takes the package from PYTHONPATH and must finish within 60 s), and `note.txt` (which part of the property it breaks, what it needs in order to manifest). Verify each yourself: clean tree -> demo passes, 81 tests pass; with the patch -> demo fails, 81 tests still pass. Reset the worktree to clean (`git checkout -- .`) between mutants and at the end (the out/ directory is untracked and stays). Final answer: one line per mutant.""" + used_txt)
